@@ -46,13 +46,31 @@ CONST_SLOPE = [1.0, -0.5]
 Y0 = [0.5, -1.0]
 
 
+# constants of the system: the right-hand sides read 'gain' (true value 1.0); inside a library call a constant that does not arrive falls back to a wrong value
+CONSTS = dict(gain=1.0)
+_LIB = dict(on=False)
+
+
+class in_library(object):
+    def __enter__(self):
+        _LIB["on"] = True
+
+    def __exit__(self, *a):
+        _LIB["on"] = False
+        return False
+
+
+def _gain(kw):
+    return (kw["gain"] if "gain" in kw else 3.0) if _LIB["on"] else 1.0
+
+
 def rhs_of(kind):
     if kind == "const":
         def f(t, y, **kw):
-            return np.array(CONST_SLOPE, dtype=y.dtype)
+            return np.array(CONST_SLOPE, dtype=y.dtype) * _gain(kw)
     elif kind == "osc":
         def f(t, y, **kw):
-            return np.array([y[1], -y[0]], dtype=y.dtype)
+            return np.array([y[1], -y[0]], dtype=y.dtype) * _gain(kw)
     else:
         raise KeyError(kind)
     return f
@@ -65,7 +83,7 @@ def fresh(cfg):
     y0 = np.array(Y0, dtype=dtype)
     tol = cfg.get("tol", 1e-6)
     a = de.OdeSystem(f, y0=y0, t=(dtype(cfg["t0"]), dtype(cfg["tf"])), dt=dtype(cfg["dt0"]), rtol=dtype(tol), atol=dtype(tol),
-                     dense_output=bool(cfg.get("dense", False)))
+                     dense_output=bool(cfg.get("dense", False)), constants=dict(CONSTS))
     a.method = by_name(cfg["method"])
     return a, f, y0, dtype
 
@@ -91,12 +109,13 @@ def apply_op(a, op, dtype, budget_extra=20000):
         lim = (8 * driver.min_steps(a.t[-1], target, dt_eff if dt_eff > 0 else 1.0) if kind != "intU" else 0) + budget_extra
         b = driver.Budget(lim)
         try:
-            if kind == "int":
-                a.integrate(callback=b)
-            elif kind in ("intF", "intU"):
-                a.integrate(tq, callback=b)
-            else:
-                a.integrate(dtype(op[1]), callback=b)
+            with in_library():
+                if kind == "int":
+                    a.integrate(callback=b)
+                elif kind in ("intF", "intU"):
+                    a.integrate(tq, callback=b)
+                else:
+                    a.integrate(dtype(op[1]), callback=b)
             obs["raised"] = None
         except de.exception_types.FailedIntegration as e:
             obs["raised"] = "budget" if driver.budget_hit(e) else repr(e.__cause__)[:200]
